@@ -446,8 +446,13 @@ def execute(prop, plan, tier, seed, expinfo, t_start):
             else:
                 undecided.append('kani %s: %s' % (h['harness'], h['status']))
         checker_cmds.append(kani_driver.CMD_DOC)
-        samples += [dict(obligation='%s/K.%s' % (prop, h['harness']), backend='kani',
-                         checks=h.get('checks')) for h in kr[:3]]
+        spec_by = {s['harness']: s for s in plan.kani}
+        functions += ['kani harness %s: %s' % (h['harness'], (spec_by.get(h['harness'], {}).get('clause') or '')[:160]) for h in kr]
+        samples += [dict(obligation='%s/K.%s' % (prop, h['harness']), backend='kani', checks=h.get('checks'),
+                         domain=spec_by.get(h['harness'], {}).get('domain'),
+                         expected_to_fail=bool(spec_by.get(h['harness'], {}).get('should_fail'))) for h in kr[:4]]
+        vac += [dict(kani_guard=h['harness'], result='fails as required') for h in kr
+                if spec_by.get(h['harness'], {}).get('should_fail') and h['status'] == 'ok']
 
     # ---- known findings
     kf = [k for k in known_findings() if k.get('property') == prop and k.get('status') == 'open']
